@@ -123,6 +123,9 @@ def run(ctx):
                 lib2 = "\n".join(texts[sl[a]] for a in sorted(deep))
                 lib1 = '@import "deep.djinni"\n' + "\n".join(texts[sl[a]] for a in range(len(sl)) if a not in deep)
                 p["variants"]["split2"] = {"/w/m.djinni": main, "/w/lib/part.djinni": lib1, "/w/lib/deep.djinni": lib2}
+                # diamond: the deep file is reached along two import paths with different spellings of its path
+                p["variants"]["diamond"] = {"/w/m.djinni": '@import "other/b.djinni"\n' + main, "/w/lib/part.djinni": lib1,
+                                            "/w/other/b.djinni": '@import "../lib/deep.djinni"\n', "/w/lib/deep.djinni": lib2}
         for vname, files in p["variants"].items():
             todo2.append({"files": files, "root": "/w/m.djinni"})
             index.append((pi, vname))
